@@ -115,7 +115,7 @@ def gen_case1(rng):
             'second': rng.random() < 0.4, 'note': rng.choice([None, 'n', 'note é']),
             'tz': [rng.choice(TIME_ZONES), rng.choice(TIME_ZONES)] if rng.random() < 0.4 else None,
             'args': rng.choice(['root', 'root', 'each', 'dup', 'overlap', 'overlap', 'symlink', 'spelling']),
-            'fault': rng.choice([None] * 8 + ['vanish', 'unreadable'])}
+            'fault': rng.choice([None] * 8 + ['vanish', 'unreadable']), 'replace': rng.random() < 0.15}
 
 
 def gen_sched_case1(rng):
@@ -186,6 +186,7 @@ def gen_case2(rng):
                        for i in rng.sample(range(len(files)), min(len(files), rng.choice([1, 1, 2])))]
                       for _ in range(rng.choice([1, 1, 2]))] if files and rng.random() < 0.45 else [],
             'drop_empty_refs': rng.random() < 0.5, 'concurrent': rng.choice([1, 2, 5]),
+            'pre': rng.choice(['none', 'none', 'longer', 'longer', 'shorter', 'equal', 'mixed']),
             # st_size recorded by a stat() after the file grew / was rotated: differs from the data the ranges define
             'size_skew': rng.choice([0, 0, 0, -1, 1, -1000, 7, 4096]),
             'kdf': {'name': 'scrypt', 'n': rng.choice([2, 4, 8]), 'r': rng.choice([1, 2]), 'p': 1}}
@@ -299,6 +300,35 @@ def _forced_schedule(on, delay=0.008):
         yield
     finally:
         R.queue, R.RepositoryProps.chunkify = orig_queue, orig_chunkify
+
+
+@contextlib.contextmanager
+def _replace_on_read(on):
+    """every source file is atomically replaced (temp + rename) by a successor of another size and mtime once it has been
+    read to its end but while it is still open: what the snapshot records must describe the contents it stored"""
+    if not on:
+        yield
+        return
+    import replicat.repository as R
+    orig = R.Repository.read_metadata
+
+    def read_metadata(self, file):
+        try:
+            path = os.readlink(f'/proc/self/fd/{file}') if isinstance(file, int) else os.fspath(file)
+            if os.path.isfile(path) and '/src/' in path:
+                tmp = path + '.c14-new'
+                with open(tmp, 'wb') as f:
+                    f.write(b'successor ' * 7)
+                os.replace(tmp, path)
+        except OSError:
+            pass
+        return orig(self, file)
+
+    R.Repository.read_metadata = read_metadata
+    try:
+        yield
+    finally:
+        R.Repository.read_metadata = orig
 
 
 def snapshot_args(kind, src, files, wd):
@@ -434,10 +464,10 @@ def run_dir1(case, wd: Path):
                 out = Path(os.path.realpath(wd)) / 'out'
                 out.mkdir()
                 await r3.restore(path=out)
-                restored.append((Path(out, *p.parts[1:]), p.read_bytes()))
+                restored.append((Path(out, *p.parts[1:]), st[str(p)][0]))
         return key
 
-    with _quiet(), _forced_schedule(case.get('schedule') == 'forced'):
+    with _quiet(), _forced_schedule(case.get('schedule') == 'forced'), _replace_on_read(case.get('replace')):
         key_bytes = asyncio.run(go())
 
     problems = []
@@ -798,6 +828,23 @@ def run_dir2(case, layouts, manifests, wd: Path):
     backend.objects.update(w.objects)
     target = Path(os.path.realpath(wd)) / 'out'
     target.mkdir(parents=True)
+    # the target directory may already hold stale copies of the paths (longer, shorter, same length) and a bystander
+    bystander = None
+    pre = case.get('pre', 'none')
+    if pre != 'none':
+        prng = _random.Random(case['seed'] + 11)
+        for p, (blob, _) in expect.items():
+            mode = pre if pre != 'mixed' else prng.choice(['none', 'longer', 'shorter', 'equal'])
+            if mode == 'none':
+                continue
+            t = Path(target, *Path(p).parts[1:])
+            t.parent.mkdir(parents=True, exist_ok=True)
+            n = len(blob)
+            t.write_bytes(b'Z' * (n + 1 + prng.randint(0, 300)) if mode == 'longer' else (b'Y' * max(0, n - 1 - prng.randint(0, 5)) if mode == 'shorter' else b'X' * n))
+            os.utime(t, ns=(10 ** 18, 10 ** 18))
+        bystander = target / 'c14-src' / 'bystander.bin'
+        bystander.parent.mkdir(parents=True, exist_ok=True)
+        bystander.write_bytes(b'keep me')
 
     async def go():
         r = _repo(backend, case['concurrent'])
@@ -818,10 +865,15 @@ def run_dir2(case, layouts, manifests, wd: Path):
         got = t.read_bytes()
         if got != blob:
             problems.append((f'restored content differs from the data the recorded ranges define ({len(got)} vs {len(blob)} bytes'
-                             + (f'; metadata st_size skewed by {case["size_skew"]}' if case.get('size_skew') else '') + ')', 'content'))
+                             + (f'; metadata st_size skewed by {case["size_skew"]}' if case.get('size_skew') else '')
+                             + (f'; target directory pre-filled with {pre} copies' if pre != 'none' else '') + ')', 'content'))
         elif t.stat().st_mtime_ns != mtime_ns:
             problems.append((f'modification time not restored ({"pre-1.3 st_mtime" if case["legacy"] else "st_mtime_ns"}): '
                              f'{t.stat().st_mtime_ns} != {mtime_ns}', 'mtime'))
+    if bystander is not None:
+        seen.add(str(bystander))
+        if not bystander.is_file() or bystander.read_bytes() != b'keep me':
+            problems.append(('restore touched a file of the target directory that the repository does not hold', 'bystander'))
     extra = {str(q) for q in target.rglob('*') if q.is_file()} - seen
     if extra:
         problems.append((f'{len(extra)} file(s) created that the repository does not hold', 'extra_file'))
@@ -1141,6 +1193,8 @@ def do_dir1(rep, ctx, cases, with_model=True):
         rep.count('d1_args=' + case.get('args', 'root'))
         if case.get('schedule'):
             rep.count('d1_forced_producer_worker_schedule')
+        if case.get('replace'):
+            rep.count('d1_sources_replaced_by_rename_while_open')
         if case.get('fault'):
             rep.count(f'd1_fault={case["fault"]}:{(obs or {}).get("fault_outcome")}')
         if case.get('big'):
@@ -1231,6 +1285,7 @@ def do_dir2(rep, ctx, cases, with_model=True):
         rep.count('d2_split=' + case['split'])
         rep.count('d2_json=' + case['style'])
         rep.count('d2_snapshots=%d' % len(layouts[i]))
+        rep.count('d2_target_prefilled=' + case.get('pre', 'none'))
         for edits in case.get('later') or []:
             for e in edits:
                 rep.count('d2_newer_version=' + e['kind'])
